@@ -40,11 +40,16 @@ pub fn cast_all() -> Vec<Id> {
 }
 pub const D: u128 = 1_000_000_000_000_000_000;
 
+/// ids 1000..1999 are the upper-case spelling of the address `id - 1000` (one account, two spellings)
 pub fn name(id: Id) -> String {
-    format!("a{:04}", id)
+    if (1000..2000).contains(&id) {
+        format!("A{:04}", id - 1000)
+    } else {
+        format!("a{:04}", id)
+    }
 }
 pub fn id_of(s: &str) -> Id {
-    s.trim_start_matches('a').parse::<Id>().unwrap_or(0)
+    s.trim_start_matches(|c| c == 'a' || c == 'A').parse::<Id>().unwrap_or(0)
 }
 pub fn denom(d: u8) -> &'static str {
     match d {
